@@ -194,6 +194,17 @@ pub fn run(cfg: &Cfg) {
         }
         bp_dec_case(&mut sink, &gen_bp_obj(&mut r), "random");
     }
+    // ---- the builder's defaults (the default expiry is "now + 365 days", with a sub-second part)
+    for _ in 0..3 {
+        let l = in_toto::models::LayoutMetadataBuilder::new().build().unwrap();
+        round_trip::<LayoutMetadata>(&mut sink, "LayoutMetadata(builder-defaults)", &l);
+        let k = in_toto::models::LinkMetadataBuilder::new().build();
+        if let Ok(k) = k {
+            round_trip::<LinkMetadata>(&mut sink, "LinkMetadata(builder-defaults)", &k);
+        }
+    }
+    // ---- the derived codecs of whole documents against Model/Codec.lean (valid and mutated documents)
+    crate::c16_doc::run_docs(&mut sink, &mut r, &pool, if cfg.thorough { 1500 } else { 120 });
     // ---- documented boundary classes of the full statement (builder-obtainable values)
     let b = ByProducts::new().set_stdout("real".into()).set_other_field("stdout".into(), "shadow".into());
     let ok = round_trip::<ByProducts>(&mut sink, "ByProducts(reserved-extra-key)", &b);
